@@ -809,23 +809,15 @@ static size_t derSIDDec(char* oid, u32 val)
 
 static size_t derSIDDec2(u32 val, const char* oid)
 {
-	size_t count = 0, pos;
-	u32 t = val;
-	// число символов для val
-	do
-		t /= 10, count++;
-	while (t > 0);
-	// сравнение
+	char str[10];
+	size_t count, pos;
+	// десятичная запись val
+	count = derSIDDec(str, val);
+	// сравнение слева направо (не выходя за завершающий нуль oid)
 	ASSERT(strIsValid(oid));
-	pos = count - 1;
-	if (oid[pos] != '0' + (char)((t = val) % 10))
-		return SIZE_MAX;
-	while (pos--)
-	{
-		t /= 10;
-		if (oid[pos] != '0' + (char)(t % 10))
+	for (pos = 0; pos < count; ++pos)
+		if (oid[pos] != str[pos])
 			return SIZE_MAX;
-	}
 	return count;
 }
 
